@@ -32,6 +32,11 @@ partial def loop (h out : IO.FS.Stream) (w : W) : IO Unit := do
     let (w, lines) := daemonPass w { now := now.toNat!, acc := acc.toNat!, con := con.toNat!, soe := soe.toNat!, envs := envs.map parseEnv }
     for l in lines do out.putStrLn l
     loop h out w
+  | ["Q"] =>
+    for l in teardown w do out.putStrLn l
+    out.putStrLn "O teardown"
+    out.putStrLn "."
+    loop h out w
   | _ => loop h out w
 
 def main : IO Unit := do
